@@ -5,10 +5,14 @@ Property theorems only. Model and abstraction: KinModel/Conv.lean; helper lemmas
 Full-strength statements (goal shapes), for every v2 document `d` of the convertible fragment:
     toV3 d = .ok d3  ∧  validates3 d3  ∧  api3 d3 = api2 d  ∧  api2 (fromV3 d3) = api2 d
     ∧ every reference of fromV3 d3 is a v2 location.
-The code deviates (DESIGN §7 #21, #26, #38, #39 and the findings F-C17-4, -8 … -11); what is proved below is
+The code deviates (DESIGN §7 #21c, #26, #38, #39 and the findings F-C17-4, -8 … -15; F-C17-1 and F-C17-2 — the
+discriminator and a reference inside additionalProperties on the way back — are repaired: e0e4b64, dfc5235, and
+the schema round trip is now proved at full strength); what is proved below is
 the statement per component of the `Api` (schema, parameter, form field, response, security scheme,
 servers), each at full strength or `_partial` under the decidable exclusion that names the deviation,
 with a kernel-checked witness inside the exclusion and a non-vacuity example outside it.
+Document level: Props/C17Doc.lean (round trip, simple fragment), Props/C17Body.lean (both directions with body
+parameters, inline and shared, as `Api.sim`), Props/C17Form.lean (ToV3 with inline form parameters).
 -/
 import KinModel.Lemmas.C17
 import KinModel.Gen.CopyTables
@@ -29,6 +33,12 @@ theorem fromV3FormTable_is_code : KinModel.Gen.fromV3FormTable = fromV3FormTable
 theorem fromV3FileTable_is_code : KinModel.Gen.fromV3FileTable = fromV3FileTable := by decide
 theorem toV3FlowTable_is_code : KinModel.Gen.toV3FlowTable = toV3FlowTable := by decide
 theorem fromV3SecTable_is_code : KinModel.Gen.fromV3SecTable = fromV3SecTable := by decide
+theorem toV3OpTable_is_code : KinModel.Gen.toV3OpTable = toV3OpTable := by decide
+theorem fromV3OpTable_is_code : KinModel.Gen.fromV3OpTable = fromV3OpTable := by decide
+
+/-- the reference prefixes and the candidate names of the body parameter are the code's -/
+theorem ref2To3_is_code : KinModel.Gen.ref2To3 = ref2To3 := by decide
+theorem bodyParamNames_is_code : KinModel.Gen.bodyParamNameRows.map (·.1) = bodyParamNames := by decide
 
 /-- **copies_complete**: at every site every constraint field of that site (and type / format / required where
     the site copies them itself) is copied from the field of the same name -/
@@ -39,7 +49,9 @@ theorem copies_complete :
     Complete ("type" :: "format" :: "items" :: paramConstraintFields) KinModel.Gen.fromV3ParamTable = true ∧
     Complete paramConstraintFields KinModel.Gen.toV3FormTable = true ∧
     Complete paramConstraintFields KinModel.Gen.fromV3FormTable = true ∧
-    Complete ["authorizationUrl", "tokenUrl"] KinModel.Gen.toV3FlowTable = true := by decide
+    Complete ["authorizationUrl", "tokenUrl"] KinModel.Gen.toV3FlowTable = true ∧
+    Complete ("operationId" :: opMetaFields) KinModel.Gen.toV3OpTable = true ∧
+    Complete ("operationId" :: opMetaFields) KinModel.Gen.fromV3OpTable = true := by decide
 
 /-- the way back copies, per OAuth2 flow, the URLs that flow uses (and names the flow) -/
 theorem copies_complete_flows :
@@ -49,11 +61,26 @@ theorem copies_complete_flows :
      ("clientCredentials.flow", "=application"), ("clientCredentials.tokenUrl", "tokenUrl")].all
       (fun row => KinModel.Gen.fromV3SecTable.contains row) = true := by decide
 
-/-- the missing rows behind findings #21a and F-C17-4: FromV3SchemaRef has no `discriminator` row,
-    FromV3RequestBodyFormData no `format` row -/
+/-- the missing row behind finding F-C17-4: FromV3RequestBodyFormData has no `format` row -/
 theorem copies_missing_rows :
-    lookupSrc "discriminator" KinModel.Gen.fromV3SchemaTable = none ∧
     lookupSrc "format" KinModel.Gen.fromV3FormTable = none := by decide
+
+/-- the typed fields both schema converters set by statements after the literal are the ones the model handles
+    outside its tables — in particular the discriminator is assigned in both directions (e0e4b64) -/
+theorem schemaAssigned_is_code :
+    KinModel.Gen.toV3SchemaAssigned = toV3SchemaAssigned ∧
+    KinModel.Gen.fromV3SchemaAssigned = fromV3SchemaAssigned := by decide
+
+/-- the operation fields set by statements after the literal: the security requirements are assigned in both
+    directions (next to parameters / request body or consumes / responses) -/
+theorem opAssigned_is_code :
+    KinModel.Gen.toV3OpAssigned = toV3OpAssigned ∧ KinModel.Gen.fromV3OpAssigned = fromV3OpAssigned ∧
+    KinModel.Gen.toV3OpAssigned.contains "security" = true ∧ KinModel.Gen.fromV3OpAssigned.contains "security" = true := by
+  decide
+
+theorem discriminator_assigned_both_ways :
+    KinModel.Gen.toV3SchemaAssigned.contains "discriminator" = true ∧
+    KinModel.Gen.fromV3SchemaAssigned.contains "discriminator" = true := by decide
 
 /-- **conv_preserves**: chains of copies that read every field of interest from the field of the same name
     preserve the record on those fields (the lemma that lifts the `decide`d table facts to all records) -/
@@ -142,103 +169,98 @@ theorem toV3S_witness_addl :
   simp [addlImpure, addlImpureKids, addlPure, addlPureKids, toV3S, toV3Kids, addlToV3, addlKids, abs3S, abs3Kids,
     abs2S, abs2Kids, abs3Hd, abs2Hd]
 
-/-- without a reference on its chain an additionalProperties sub-schema is left as it is -/
-theorem addlToV3_id {V : Type} (s : Sch V) (h : chainRef s = false) : addlToV3 s = s := by
-  refine (Sch.induct (P := fun s => chainRef s = false → addlToV3 s = s)
-    (Q := fun ks => chainRefKids ks = false → addlKids ks = ks) ?_ ?_ ?_ ?_).1 s h
-  · intro k n h; simp [chainRef] at h
+/-- fromV3AdditionalProperties undoes toV3AdditionalProperties on a v2 additionalProperties sub-schema: every
+    reference on the additionalProperties chain is back in its v2 form, everything else is untouched -/
+theorem addl_roundtrip {V : Type} (s : Sch V) (h : v2Refs s = true) : addlFromV3 (addlToV3 s) = s := by
+  refine (Sch.induct (P := fun s => v2Refs s = true → addlFromV3 (addlToV3 s) = s)
+    (Q := fun ks => v2RefsKids ks = true → addlBackKids (addlKids ks) = ks) ?_ ?_ ?_ ?_).1 s h
+  · intro k n h
+    cases k <;> simp_all [addlToV3, addlFromV3, toV3RK, fromV3RK, v2Refs, RK.isV2]
   · intro hd kids ih h
-    simp only [chainRef] at h
-    simp [addlToV3, ih h]
-  · intro _; simp [addlKids]
+    simp only [v2Refs, Bool.and_eq_true] at h
+    simp [addlToV3, addlFromV3, ih h.2]
+  · intro _; simp [addlKids, addlBackKids]
   · intro sl c rest ihc ihr h
-    simp only [chainRefKids, Bool.or_eq_false_iff] at h
+    simp only [v2RefsKids, Bool.and_eq_true] at h
     by_cases hs : sl = Slot.addl
-    · simp only [hs, if_true] at h
-      simp [addlKids, hs, ihc h.1, ihr h.2]
-    · simp [addlKids, hs, ihr h.2]
+    · simp [addlKids, addlBackKids, hs, ihc h.1, ihr h.2]
+    · simp [addlKids, addlBackKids, hs, ihr h.2]
 
-/-- Full statement: `∀ s, abs2S (fromV3S (toV3S s)) = abs2S s`. It fails inside `hasDisc` (finding #21:
-    the discriminator is not copied back) and inside `addlRef` (finding #21: a reference inside
-    additionalProperties stays a v3 reference).
-    **The round trip gives back a v2 schema that says the same.** -/
-theorem roundtripS_partial {V : Type} (s : Sch V) (h1 : hasDisc s = false) (h2 : addlRef s = false)
-    (h3 : v2Refs s = true) : abs2S (fromV3S (toV3S s)) = abs2S s := by
-  refine (Sch.induct (P := fun s => hasDisc s = false → addlRef s = false → v2Refs s = true →
-      abs2S (fromV3S (toV3S s)) = abs2S s)
-    (Q := fun ks => hasDiscKids ks = false → addlRefKids ks = false → v2RefsKids ks = true →
-      abs2Kids (fromV3Kids (toV3Kids ks)) = abs2Kids ks) ?_ ?_ ?_ ?_).1 s h1 h2 h3
-  · intro k n _ _ h
+/-- **The round trip gives back a v2 schema that says the same**: for every v2 schema (v2 references, no v3
+    keyword), `abs2S (fromV3S (toV3S s)) = abs2S s` — type/format, nullability, discriminator, required list, every
+    constraint keyword, every sub-schema, every reference. Full strength since e0e4b64 (discriminator) and dfc5235
+    (references inside additionalProperties); formerly `roundtripS_partial` outside `hasDisc` / `addlRef`. -/
+theorem roundtripS {V : Type} (s : Sch V) (h3 : v2Refs s = true) : abs2S (fromV3S (toV3S s)) = abs2S s := by
+  refine (Sch.induct (P := fun s => v2Refs s = true → abs2S (fromV3S (toV3S s)) = abs2S s)
+    (Q := fun ks => v2RefsKids ks = true → abs2Kids (fromV3Kids (toV3Kids ks)) = abs2Kids ks) ?_ ?_ ?_ ?_).1 s h3
+  · intro k n h
     cases k <;> simp_all [toV3S, fromV3S, abs2S, toV3RK, fromV3RK, v2Refs, RK.isV2]
-  · intro hd kids ih h1 h2 h3
-    simp only [hasDisc, Bool.or_eq_false_iff, Option.isSome_eq_false_iff, Option.isNone_iff_eq_none] at h1
-    simp only [addlRef] at h2
+  · intro hd kids ih h3
     simp only [v2Refs, Bool.and_eq_true] at h3
-    simp only [toV3S, fromV3S, abs2S, ih h1.2 h2 h3.2, abs2Hd_roundtrip hd h1.1]
-  · intro _ _ _; simp [toV3Kids, fromV3Kids, abs2Kids]
-  · intro sl c rest ihc ihr h1 h2 h3
-    simp only [hasDiscKids, Bool.or_eq_false_iff] at h1
-    simp only [addlRefKids, Bool.or_eq_false_iff] at h2
+    simp only [toV3S, fromV3S, abs2S, ih h3.2, abs2Hd_roundtrip hd]
+  · intro _; simp [toV3Kids, fromV3Kids, abs2Kids]
+  · intro sl c rest ihc ihr h3
     simp only [v2RefsKids, Bool.and_eq_true] at h3
     by_cases hs : sl = Slot.addl
-    · simp only [hs, if_true] at h2
-      simp [toV3Kids, fromV3Kids, abs2Kids, hs, addlToV3_id c h2.1, ihr h1.2 h2.2 h3.2]
-    · simp only [hs, if_false] at h1 h2
-      simp [toV3Kids, fromV3Kids, abs2Kids, hs, ihc h1.1 h2.1 h3.1, ihr h1.2 h2.2 h3.2]
+    · simp [toV3Kids, fromV3Kids, abs2Kids, hs, addl_roundtrip c h3.1, ihr h3.2]
+    · simp [toV3Kids, fromV3Kids, abs2Kids, hs, ihc h3.1, ihr h3.2]
 
-/-- witness (#21a): a discriminator is lost by the round trip -/
-theorem roundtripS_witness_discriminator :
+/-- regression (F-C17-1, fixed by e0e4b64; formerly the witness of `DiscriminatorLost`): the discriminator
+    survives the round trip — model = spec on the former witness -/
+theorem roundtripS_regression_discriminator :
     let s : Sch Nat := .node { ty := some "object", disc := some "kind" } []
-    hasDisc s = true ∧ abs2S (fromV3S (toV3S s)) ≠ abs2S s := by
-  simp [hasDisc, toV3S, toV3Kids, fromV3S, fromV3Kids, abs2S, abs2Kids, abs2Hd, fromV3Hd, toV3Hd]
+    abs2S (fromV3S (toV3S s)) = abs2S s ∧ (fromV3Hd (toV3Hd ({ ty := some "object", disc := some "kind" } : Hd Nat))).disc = some "kind" := by
+  exact ⟨rfl, rfl⟩
 
-/-- witness (#21b): `additionalProperties: {$ref: "#/definitions/A"}` comes back as a v3 reference -/
-theorem roundtripS_witness_addlRef :
+/-- regression (F-C17-2, fixed by dfc5235; formerly the witness of `AddlRefKept`):
+    `additionalProperties: {$ref: "#/definitions/A"}` comes back as that v2 reference -/
+theorem roundtripS_regression_addlRef :
     let s : Sch Nat := .node { ty := some "object" } [(Slot.addl, .ref RK.def2 "A")]
-    addlRef s = true ∧ abs2S (fromV3S (toV3S s)) ≠ abs2S s ∧ refsOf (fromV3S (toV3S s)) = [RK.def3] := by
-  simp [addlRef, addlRefKids, chainRef, toV3S, toV3Kids, addlToV3, fromV3S, fromV3Kids, abs2S, abs2Kids, refsOf,
-    refsOfKids, toV3RK, absRK2]
+    abs2S (fromV3S (toV3S s)) = abs2S s ∧ refsOf (fromV3S (toV3S s)) = [RK.def2] := by
+  exact ⟨rfl, rfl⟩
 
-/-- non-vacuity: a nested schema with allOf, a nullable property, a reference, a pure additionalProperties
-    sub-schema satisfies every hypothesis of the two theorems above -/
+/-- regression (dfc5235 as amended): a reference two levels down the additionalProperties chain is rewritten too,
+    and the rewrite stops at a reference (its resolved value is not entered) -/
+theorem roundtripS_regression_addlChain :
+    let s : Sch Nat := .node { ty := some "object" } [(Slot.addl, .node { ty := some "object" } [(Slot.addl, .ref RK.def2 "A")])]
+    refsOf (fromV3S (toV3S s)) = [RK.def2] ∧ addlFromV3 (.ref RK.def3 "Self" : Sch Nat) = .ref RK.def2 "Self" := by
+  simp [toV3S, toV3Kids, addlToV3, addlKids, fromV3S, fromV3Kids, addlFromV3, addlBackKids, refsOf, refsOfKids,
+    toV3RK, fromV3RK]
+
+/-- non-vacuity: a nested schema with allOf, a nullable property, a discriminator, references (one inside
+    additionalProperties) satisfies every hypothesis of the theorems above -/
 example :
-    let s : Sch Nat := .node { ty := some "object", req := ["a"], sc := [("minProperties", 1)] }
+    let s : Sch Nat := .node { ty := some "object", disc := some "a", req := ["a"], sc := [("minProperties", 1)] }
       [(Slot.prop "a", .node { ty := some "string", xnull := true, sc := [("minLength", 2)] } []),
        (Slot.prop "b", .ref RK.def2 "B"),
        (Slot.allOf 0, .node { ty := some "array" } [(Slot.items, .ref RK.def2 "B")]),
-       (Slot.addl, .node { ty := some "integer", sc := [("maximum", 9)] } [])]
-    addlImpure s = false ∧ hasDisc s = false ∧ addlRef s = false ∧ v2Refs s = true := by
+       (Slot.addl, .node { ty := some "object", sc := [("maxProperties", 9)] } [(Slot.addl, .ref RK.def2 "B")])]
+    addlImpure s = false ∧ v2Refs s = true := by
   decide
 
-/-- Full statement: every reference of `fromV3S (toV3S s)` is a v2 location; fails inside `addlRef`.
-    **refs_rewritten** -/
-theorem refs_rewritten_partial {V : Type} (s : Sch V) (h2 : addlRef s = false) (h3 : v2Refs s = true) :
+/-- **refs_rewritten**: every reference of `fromV3S (toV3S s)` is a v2 location (full strength since dfc5235) -/
+theorem refs_rewritten {V : Type} (s : Sch V) (h3 : v2Refs s = true) :
     ∀ k ∈ refsOf (fromV3S (toV3S s)), k.isV2 = true := by
-  refine (Sch.induct (P := fun s => addlRef s = false → v2Refs s = true →
-      ∀ k ∈ refsOf (fromV3S (toV3S s)), k.isV2 = true)
-    (Q := fun ks => addlRefKids ks = false → v2RefsKids ks = true →
-      ∀ k ∈ refsOfKids (fromV3Kids (toV3Kids ks)), k.isV2 = true) ?_ ?_ ?_ ?_).1 s h2 h3
-  · intro k n _ h
+  refine (Sch.induct (P := fun s => v2Refs s = true → ∀ k ∈ refsOf (fromV3S (toV3S s)), k.isV2 = true)
+    (Q := fun ks => v2RefsKids ks = true → ∀ k ∈ refsOfKids (fromV3Kids (toV3Kids ks)), k.isV2 = true)
+    ?_ ?_ ?_ ?_).1 s h3
+  · intro k n h
     cases k <;> simp_all [toV3S, fromV3S, refsOf, toV3RK, fromV3RK, v2Refs, RK.isV2]
-  · intro hd kids ih h2 h3
-    simp only [addlRef] at h2
+  · intro hd kids ih h3
     simp only [v2Refs, Bool.and_eq_true] at h3
-    simpa [toV3S, fromV3S, refsOf] using ih h2 h3.2
-  · intro _ _; simp [toV3Kids, fromV3Kids, refsOfKids]
-  · intro sl c rest ihc ihr h2 h3
-    simp only [addlRefKids, Bool.or_eq_false_iff] at h2
+    simpa [toV3S, fromV3S, refsOf] using ih h3.2
+  · intro _; simp [toV3Kids, fromV3Kids, refsOfKids]
+  · intro sl c rest ihc ihr h3
     simp only [v2RefsKids, Bool.and_eq_true] at h3
     by_cases hs : sl = Slot.addl
-    · simp only [hs, if_true] at h2
-      simp only [toV3Kids, fromV3Kids, hs, if_true, addlToV3_id c h2.1, refsOfKids, List.mem_append]
+    · simp only [toV3Kids, fromV3Kids, hs, if_true, addl_roundtrip c h3.1, refsOfKids, List.mem_append]
       rintro k (hk | hk)
       · exact refsOf_v2 c h3.1 k hk
-      · exact ihr h2.2 h3.2 k hk
-    · simp only [hs, if_false] at h2
-      simp only [toV3Kids, fromV3Kids, hs, if_false, refsOfKids, List.mem_append]
+      · exact ihr h3.2 k hk
+    · simp only [toV3Kids, fromV3Kids, hs, if_false, refsOfKids, List.mem_append]
       rintro k (hk | hk)
-      · exact ihc h2.1 h3.1 k hk
-      · exact ihr h2.2 h3.2 k hk
+      · exact ihc h3.1 k hk
+      · exact ihr h3.2 k hk
 
 /-! ### the executable way back (`fromV3SO`: what FromV3SchemaRef returns, nil included) -/
 
@@ -284,11 +306,10 @@ theorem noBinary3_toV3S {V : Type} (s : Sch V) (h : noBinary2 s = true) : noBina
       simp [toV3Kids, noBinary3Kids, hs, ihc h.1, ihr h.2]
 
 /-- Full statement: for every v2 schema `s`, FromV3SchemaRef (ToV3SchemaRef s) is a schema that says what `s`
-    says. Fails inside `hasDisc`, `addlRef` (#21) and for `file` / binary strings (F-C17-12). -/
-theorem roundtripS_exec_partial {V : Type} (s : Sch V) (h0 : noBinary2 s = true) (h1 : hasDisc s = false)
-    (h2 : addlRef s = false) (h3 : v2Refs s = true) :
+    says. Fails for `file` / binary strings (F-C17-12). -/
+theorem roundtripS_exec_partial {V : Type} (s : Sch V) (h0 : noBinary2 s = true) (h3 : v2Refs s = true) :
     ∃ s', fromV3SO [] (toV3S s) = some s' ∧ abs2S s' = abs2S s :=
-  ⟨_, fromV3SO_eq [] (toV3S s) (noBinary3_toV3S s h0), roundtripS_partial s h1 h2 h3⟩
+  ⟨_, fromV3SO_eq [] (toV3S s) (noBinary3_toV3S s h0), roundtripS s h3⟩
 
 /-- witness (F-C17-12): a `file` / binary-string schema has no schema on the way back, and a query parameter
     of that type makes FromV3Parameter dereference nil (`none` = panic) -/
@@ -329,8 +350,8 @@ theorem paramSchema_roundtrip {V : Type} (p : Param2 V) (hi : itemsOKBack p.item
   · cases hit : p.items with
     | none => simp [itemsKids, toV3Kids, fromV3Kids, kidItems, abs2Kids]
     | some s =>
-      simp only [itemsOKBack, hit, Option.all_some, Bool.and_eq_true, Bool.not_eq_true'] at hi
-      simp [itemsKids, toV3Kids, fromV3Kids, kidItems, abs2Kids, roundtripS_partial s hi.1.1 hi.1.2 hi.2]
+      simp only [itemsOKBack, hit, Option.all_some] at hi
+      simp [itemsKids, toV3Kids, fromV3Kids, kidItems, abs2Kids, roundtripS s hi]
 
 /-- **… and gets them back** from FromV3Parameter -/
 theorem roundtripParam {V : Type} (p : Param2 V) (h1 : p.loc ≠ "body") (h2 : p.loc ≠ "formData")
@@ -386,8 +407,8 @@ theorem roundtripForm_partial {V : Type} (p : Param2 V) (hl : p.loc = "formData"
   · cases hit : p.items with
     | none => simp [itemsKids, kidItems, abs2Kids]
     | some s =>
-      simp only [itemsOKBack, hit, Option.all_some, Bool.and_eq_true, Bool.not_eq_true'] at hi
-      simp [itemsKids, kidItems, abs2Kids, roundtripS_partial s hi.1.1 hi.1.2 hi.2]
+      simp only [itemsOKBack, hit, Option.all_some] at hi
+      simp [itemsKids, kidItems, abs2Kids, roundtripS s hi]
 
 /-- witness (#21c): a required form field comes back optional -/
 theorem roundtripForm_witness_required :
@@ -489,8 +510,8 @@ theorem roundtripResp_partial {V : Type} (produces : List String) (r : RRef2 V) 
     | none => simp only [Option.map_none, ite_self]; congr 1
     | some s =>
       simp only [respLossy, hs, Option.isSome_some, Bool.true_and, Bool.not_eq_false'] at hx
-      simp only [schemaOKBack, hs, Option.all_some, Bool.and_eq_true, Bool.not_eq_true'] at hok
-      simp only [Option.map_some, hx, if_true, roundtripS_partial s hok.2.1.1 hok.2.1.2 hok.2.2]
+      simp only [schemaOKBack, hs, Option.all_some] at hok
+      simp only [Option.map_some, hx, if_true, roundtripS s hok.2]
       congr 1
 
 /-- witness (#26): `produces: [application/xml]` — the response schema does not come back -/
@@ -699,15 +720,13 @@ theorem toV3Path_simple {V : Type} (dc : List String) (p : Path2 V) (h : pathSim
     mapRes_ok _ _ _ (fun q hq => by simp [pathParam3, toV3P_simple dc q (List.all_eq_true.mp h.1 q hq)])
   simp [toV3Path, h1, h2, toV3PathS]
 
-/-- every operation of the simple fragment: **same path, method, operation id, parameters, responses** -/
+/-- every operation of the simple fragment: **same path, method, operation id, parameters, responses**, and the
+    same summary / description / deprecated / tags and security requirements -/
 theorem opA_simple {V : Type} (path : String) (o : Op2 V) (h : opSimple o = true) :
-    ({ path := path, method := (toV3OpS o).method, opId := (toV3OpS o).opId,
-       inputs := (toV3OpS o).params.map paramA3 ++ (match (toV3OpS o).body with | none => [] | some b => bodyA3 b),
-       responses := (toV3OpS o).responses.map (fun kr => (kr.1, respA3 kr.2)) } : OpA V) =
-    { path := path, method := o.method, opId := o.opId, inputs := o.params.map inputA2,
-      responses := o.responses.map (fun kr => (kr.1, respA2 kr.2)) } := by
+    opA3 path (toV3OpS o) = opA2 path o := by
   simp only [opSimple, Bool.and_eq_true] at h
-  simp only [toV3OpS, List.append_nil, inputs_simple o.params h.1, responses_simple o.produces o.responses h.2]
+  simp only [opA3, opA2, toV3OpS, List.append_nil, inputs_simple o.params h.1,
+    responses_simple o.produces o.responses h.2, meta_toV3]
 
 theorem mapSecs_preserves (l : List (String × Sec2)) (h : l.all (fun ks => secInFragment ks.2) = true) :
     ∃ l', mapSecs l = .ok l' ∧
@@ -760,13 +779,8 @@ theorem mergeSchemas_nodup {V : Type} (defs : List (String × Sch V)) (acc : Lis
         · simp [alookup, hk]
 
 theorem ops_simple {V : Type} (paths : List (Path2 V)) (h : paths.all pathSimple = true) :
-    (paths.map toV3PathS).flatMap (fun p => p.ops.map (fun o =>
-      ({ path := p.path, method := o.method, opId := o.opId,
-         inputs := o.params.map paramA3 ++ (match o.body with | none => [] | some b => bodyA3 b),
-         responses := o.responses.map (fun kr => (kr.1, respA3 kr.2)) } : OpA V))) =
-    paths.flatMap (fun p => p.ops.map (fun o =>
-      ({ path := p.path, method := o.method, opId := o.opId, inputs := o.params.map inputA2,
-         responses := o.responses.map (fun kr => (kr.1, respA2 kr.2)) } : OpA V))) := by
+    (paths.map toV3PathS).flatMap (fun p => p.ops.map (opA3 p.path)) =
+    paths.flatMap (fun p => p.ops.map (opA2 p.path)) := by
   induction paths with
   | nil => rfl
   | cons p rest ih =>
@@ -836,7 +850,7 @@ theorem toV3Raw_simple {V : Type} (d : Doc2 V) (h : docSimple d = true) (secs : 
     toV3Raw d = .ok { servers := toV3Servers d.loc, cparams := d.params.map (fun kp => (kp.1, toV3PS kp.2)), cbodies := [],
                       cschemas := d.defs.map (fun ks => (ks.1, ({ formName := none, schema := toV3S ks.2 } : CSchema V))),
                       cresponses := d.responses.map (fun kr => (kr.1, toV3Resp d.produces kr.2)), secs := secs,
-                      paths := d.paths.map toV3PathS } := by
+                      paths := d.paths.map toV3PathS, security := d.security } := by
   simp only [docSimple, Bool.and_eq_true] at h
   obtain ⟨⟨⟨⟨⟨⟨hparams, hpaths⟩, hresps⟩, hnodup⟩, hdefs⟩, hsecs⟩, hloc⟩ := h
   have hp : mapRes (toV3Path { cbodies := [], cschemas := [] } d.consumes) d.paths = .ok (d.paths.map toV3PathS) :=
@@ -899,6 +913,7 @@ theorem api3_toV3_simple {V : Type} (d : Doc2 V) (h : docSimple d = true) :
     · exact hdefs' d.defs hdefs
     · exact hserv
     · exact hsecs2
+    · rfl
 
 /-- non-vacuity of `api3_toV3_simple`: a document with a path parameter, a constrained array query parameter,
     a response with headers but no schema, a shared response, two definitions (one referring to the other,
